@@ -550,8 +550,9 @@ pub fn run(a: &Args) -> anyhow::Result<String> {
         "crowd" => {
             // one flight with more callers than any counter inside the group may assume (65536 and more): one task run,
             // everybody gets its value.  Only the totals are recorded (350 000 hook events would say nothing more).
-            for r in 0..a.u64("n", 1) {
-                let n = a.u64("callers", 66000) as usize + r as usize;
+            // (the counts around 2^16 exactly: a 16-bit counter of callers reads 0 there)
+            for r in 0..a.u64("n", 3) {
+                let n = a.u64("callers", 65535) as usize + r as usize;
                 ctl.reset_sched();
                 ctl.set_controlled(false);
                 let rt = tokio::runtime::Builder::new_multi_thread().worker_threads(4).enable_all().build().unwrap();
